@@ -42,7 +42,9 @@
      "replace"    an assignment to a whole array / struct variable gives the variable new storage instead of writing
                   into its storage: slices of it and pointers into it keep seeing the old contents
      "palost"     an element assignment through a pointer to an array is lost
-     "rangelive"  range over an array value with both iteration variables reads the array itself, not a copy *)
+     "rangelive"  range over an array value with both iteration variables reads the array itself, not a copy
+     "cladr"      inside a function literal, the address of an element / a field of a captured array / struct variable
+                  is the address of a copy of the variable *)
 EXTENDS Integers, Sequences, MiniGoText
 
 GdSl(a, off, len, cap, ck) == [a |-> a, off |-> off, len |-> len, cap |-> cap, ck |-> ck]
@@ -165,11 +167,19 @@ GdApply(st, op) ==
     [] op.k = "callarrval" -> [st EXCEPT !.i = st.arrs[op.a][1] + op.v]        \* the callee writes its own copy
     \* ---- pointers
     [] op.k = "piset" -> [st EXCEPT !.pi = op.loc]
+    [] op.k = "pisetc" ->                                 \* the same, written in a function literal: the array / struct is a captured variable
+         IF "cladr" \notin st.alt THEN [st EXCEPT !.pi = op.loc]
+         ELSE IF op.loc.k = "arr" THEN [st EXCEPT !.arrs = Append(@, st.arrs[op.loc.n]), !.pi = GdLoc("arr", Len(st.arrs) + 1, op.loc.j)]
+         ELSE [st EXCEPT !.sts = Append(@, st.sts[op.loc.n]), !.pi = GdLoc(op.loc.k, Len(st.sts) + 1, op.loc.j)]
     [] op.k = "pisl" -> LET sl == st.sl[op.v] IN
                         IF op.j >= sl.len THEN GdPanic(st, "index") ELSE [st EXCEPT !.pi = GdLoc("arr", sl.a, sl.off + op.j + 1)]
     [] op.k = "piptx" -> IF st.pt = 0 THEN GdPanic(st, "nilderef") ELSE [st EXCEPT !.pi = GdLoc("sx", st.pt, 0)]
     [] op.k = "pistore" -> IF st.pi.k = "nil" THEN GdPanic(st, "nilderef") ELSE GdWrite(st, st.pi, op.v)
     [] op.k = "piload" -> IF st.pi.k = "nil" THEN GdPanic(st, "nilderef") ELSE [st EXCEPT !.i = GdRead(st, st.pi) + 1]
+    [] op.k = "piop" ->                                   \* *pi op= v: "x op= y" is "x = x op (y)" with x evaluated once - the pointee is read, then written
+         IF st.pi.k = "nil" THEN GdPanic(st, "nilderef")
+         ELSE LET cur == GdRead(st, st.pi) IN
+              GdWrite(st, st.pi, CASE op.op = "+" -> cur + op.v [] op.op = "-" -> cur - op.v [] op.op = "*" -> cur * op.v)
     \* ---- structs (value semantics, the array field included)
     [] op.k = "scopy" -> [GdDetachSt(st, op.d) EXCEPT !.sts[op.d] = st.sts[op.s]]
     [] op.k = "sxset" -> [st EXCEPT !.sts[op.n].x = op.v]
@@ -267,6 +277,17 @@ GdOps == <<
   GdO("pi = &pt.x", [k |-> "piptx"]),
   GdO("*pi = 64", [k |-> "pistore", v |-> 64]),
   GdO("i = *pi + 1", [k |-> "piload"]),
+  \* assignment operations through the pointer (to a variable, an array / slice element, a struct field: wherever pi points)
+  GdO("*pi += 5", [k |-> "piop", op |-> "+", v |-> 5]),
+  GdO("*pi++", [k |-> "piop", op |-> "+", v |-> 1]),
+  GdO("*pi -= 3", [k |-> "piop", op |-> "-", v |-> 3]),
+  GdO("*pi *= 2", [k |-> "piop", op |-> "*", v |-> 2]),
+  \* function literals that capture the pointer VARIABLE pi (they read it, assign to it, dereference it): in the enclosing
+  \* function - the printed state, and the operations above - *pi is then an indirection of a captured variable
+  GdO("func() { pi = &b[1] }()", [k |-> "pisetc", loc |-> GdLoc("arr", 2, 2)]),
+  GdO("func() { pi = &i }()", [k |-> "piset", loc |-> GdLoc("i", 0, 0)]),
+  GdO("func() { *pi = 57 }()", [k |-> "pistore", v |-> 57]),
+  GdO("func() { i = *pi + 1 }()", [k |-> "piload"]),
   \* structs
   GdO("q = p", [k |-> "scopy", d |-> 2, s |-> 1]),
   GdO("p.x = 68", [k |-> "sxset", n |-> 1, v |-> 68]),
@@ -335,6 +356,8 @@ GdOps == <<
   GdO("f = func() { a[0] = 94 }", [k |-> "fset", body |-> [k |-> "aset", a |-> 1, j |-> 1, v |-> 94]]),
   GdO("f = func() { s = append(s, 95) }", [k |-> "fset", body |-> [k |-> "append", d |-> "s", src |-> GdSV("s"), vs |-> [k |-> "c", c |-> <<95>>]]]),
   GdO("f = func() { p.x++ }", [k |-> "fset", body |-> [k |-> "sxadd", n |-> 1, v |-> 1]]),
+  GdO("f = func() { _ = pi }", [k |-> "fset", body |-> GdNop]),
+  GdO("f = func() { pi = &q.x }", [k |-> "fset", body |-> [k |-> "pisetc", loc |-> GdLoc("sx", 2, 0)]]),
   GdO("f = func(v int) func() { return func() { i = v } }(i)", [k |-> "fsetcur"]),
   GdO("f = func(v [3]int) func() { return func() { a = v } }(a)", [k |-> "fsetarr"]),
   GdO("{ g := f; f = func() { g(); g() } }", [k |-> "fwrap"]),
